@@ -294,5 +294,275 @@ Section Refine.
         + destruct (o_rhf o); [reflexivity|]. rewrite write_empty_step.
           destruct (empty_rule_cases (f_req f)) as [H|[H|H]]; rewrite H; reflexivity.
     Qed.
+
+    (* ---------------------------------------------------------------------------------------------- *)
+    (* handleHttpMappings = the table's steps, in declaration order, with early exit                   *)
+    (* ---------------------------------------------------------------------------------------------- *)
+    Fixpoint fold_steps (nobody : bool) (l : list fdesc) (bm : bitmap) (buf : list (Z * tval)) : hstate :=
+      match l with
+      | [] => HSt bm buf
+      | f :: rest => match apply_step (f_id f) (hhm_step nobody f) bm buf with
+                     | HSt bm' buf' => fold_steps nobody rest bm' buf'
+                     | HFail c => HFail c
+                     end
+      end.
+
+    Lemma handleHttpMappings_spec : forall n nobody fs bm buf,
+      handleHttpMappings o rq conv_text conv_json rec_doc (S n) nobody fs bm buf =
+      fold_steps nobody (HttpMappingFields fs) bm buf.
+    Proof.
+      intros n nobody fs. unfold handleHttpMappings. induction (HttpMappingFields fs) as [|f r IH]; intros bm buf; simpl.
+      - reflexivity.
+      - rewrite hhm_field_spec. destruct (apply_step (f_id f) (hhm_step nobody f) bm buf); [apply IH | reflexivity].
+    Qed.
+
+    (* the requires bit a mapped field is left with, JSON body present: owed exactly when the decision is "fall back to the body" *)
+    Lemma hhm_step_bit : forall f,
+      snd (hhm_step false f) = Some (match map_field o false f rq with DFallbackToBody => true | _ => false end) \/
+      map_field o false f rq = DSkipOwed.
+    Proof.
+      intros f. unfold hhm_step. destruct (map_field o false f rq); simpl; auto.
+    Qed.
+
+    Lemma map_field_body_not_skipowed : forall f, map_field o false f rq <> DSkipOwed.
+    Proof.
+      intros f. unfold map_field.
+      destruct (first_source (f_anns f) (is_struct (f_ty f)) rq) as [[i [v|]]|].
+      - destruct (nonempty v); [discriminate|]. destruct (empty_rule_cases (f_req f)) as [H|[H|H]]; rewrite H; discriminate.
+      - discriminate.
+      - unfold no_source_rule. destruct (o_rhf o); [discriminate|].
+        destruct (empty_rule_cases (f_req f)) as [H|[H|H]]; rewrite H; discriminate.
+    Qed.
+
+    (* and the result the iteration writes is the table's field result (absent = nothing written) *)
+    Lemma hhm_step_result : forall root ms f, f_anns f <> [] ->
+      map_field o false f rq <> DFallbackToBody ->
+      match fst (hhm_step false f) with Some r => r | None => FAbsent end =
+      field_result o Spec rq conv_text conv_json rec_doc root false ms f.
+    Proof.
+      intros root ms f Hne Hnf. unfold field_result, hhm_step.
+      assert (Hn : nonempty (f_anns f) = true) by (destruct (f_anns f); [contradiction | reflexivity]). rewrite Hn.
+      destruct (map_field o false f rq) eqn:E; simpl; try reflexivity.
+      - contradiction.
+      - exfalso. eapply map_field_body_not_skipowed; exact E.
+    Qed.
+
+    (* ---------------------------------------------------------------------------------------------- *)
+    (* the member loop: one member                                                                     *)
+    (* ---------------------------------------------------------------------------------------------- *)
+    Lemma members_step : forall fs k j rest bm buf ft,
+      FieldByKey fs k = Some ft ->
+      members_loop conv_json rec_member fs ((k, j) :: rest) bm buf =
+      if nonempty (f_anns ft) && negb (bm (f_id ft)) then members_loop conv_json rec_member fs rest bm buf
+      else match to_wres (f_id ft) (conv_value conv_json rec_member (f_ty ft) j) with
+           | WOk w => members_loop conv_json rec_member fs rest (bm_set bm (f_id ft) false) (buf ++ w)
+           | WErr c => HFail c
+           end.
+    Proof.
+      intros fs k j rest bm buf ft H. simpl. rewrite H.
+      destruct (nonempty (f_anns ft) && negb (bm (f_id ft))); [reflexivity|].
+      rewrite conv_with_is_conv_value.
+      destruct (conv_value conv_json rec_member (f_ty ft) j); simpl; try rewrite app_nil_r; reflexivity.
+    Qed.
+
+    (* ---------------------------------------------------------------------------------------------- *)
+    (* owed fields at the end of the object                                                            *)
+    (* ---------------------------------------------------------------------------------------------- *)
+    Definition valid_req (f : fdesc) : Prop := f_req f = R_DEFAULT \/ f_req f = R_REQUIRED \/ f_req f = R_OPTIONAL.
+
+    Lemma of_empty_rule_direct : forall f, valid_req f ->
+      to_wres (f_id f) (of_empty_rule o (f_ty f) (f_req f)) =
+      if negb (o_wr o) && (f_req f =? R_REQUIRED) then WErr E_MISS
+      else if (o_wr o && (f_req f =? R_REQUIRED)) || (o_wd o && (f_req f =? R_DEFAULT)) || (o_wo o && (f_req f =? R_OPTIONAL))
+           then WOk [(f_id f, zero_of (f_ty f))] else WOk [].
+    Proof.
+      intros f Hv. unfold of_empty_rule, empty_rule.
+      destruct Hv as [H|[H|H]]; rewrite H; unfold R_DEFAULT, R_REQUIRED, R_OPTIONAL; simpl;
+      destruct (o_wr o), (o_wd o), (o_wo o); reflexivity.
+    Qed.
+
+    (* portable: the HandleRequires callback of doRecurse (after 6ef907f) = the documented unset-field rule *)
+    Lemma req_eqbs : forall f, valid_req f ->
+      ((f_req f =? R_REQUIRED) = true /\ (f_req f =? R_DEFAULT) = false /\ (f_req f =? R_OPTIONAL) = false) \/
+      ((f_req f =? R_REQUIRED) = false /\ (f_req f =? R_DEFAULT) = true /\ (f_req f =? R_OPTIONAL) = false) \/
+      ((f_req f =? R_REQUIRED) = false /\ (f_req f =? R_DEFAULT) = false /\ (f_req f =? R_OPTIONAL) = true).
+    Proof. intros f [H|[H|H]]; rewrite H; auto. Qed.
+
+    Ltac unset_case E1 E2 E3 Ewr Ewd Ewo :=
+      rewrite ?E1, ?E2, ?E3; simpl;
+      first [ apply writeStringValue_seek
+            | try rewrite writeStringValue_empty; cbv [of_empty_rule empty_rule]; rewrite ?E1, ?E2, ?E3, ?Ewr, ?Ewd, ?Ewo; simpl; reflexivity ].
+
+    Lemma portable_unset_spec : forall root f, valid_req f ->
+      HandleRequires_field (o_wr o || o_tb o) (o_wd o || (o_tb o && root)) (o_wo o || (o_tb o && root))
+        (fun f => let '(val, enc) := if o_tb o && (root || (f_req f =? R_REQUIRED)) then tryGetValueFromHttp rq (f_name f) else ([], ENC_JSON) in
+                  wsv f (SText_ val) enc) f =
+      to_wres (f_id f) (unset_rule o Spec rq conv_text conv_json rec_doc root f).
+    Proof.
+      intros root f Hv. unfold HandleRequires_field, unset_rule.
+      destruct (o_tb o) eqn:Etb, root, (o_wr o) eqn:Ewr, (o_wd o) eqn:Ewd, (o_wo o) eqn:Ewo;
+      destruct (req_eqbs f Hv) as [(E1 & E2 & E3)|[(E1 & E2 & E3)|(E1 & E2 & E3)]]; unset_case E1 E2 E3 Ewr Ewd Ewo.
+    Qed.
+
+    (* empty body: the HandleRequires callback of do *)
+    Lemma nobody_unset_spec : forall f, valid_req f -> f_req f <> R_OPTIONAL ->
+      HandleRequires_field (o_rhf o) (o_rhf o) (o_rhf o)
+        (fun f => let '(val, enc) := tryGetValueFromHttp rq (f_name f) in wsv f (SText_ val) enc) f =
+      to_wres (f_id f) (nobody_unset_rule o rq conv_text conv_json rec_doc f).
+    Proof.
+      intros f Hv Hno. unfold HandleRequires_field, nobody_unset_rule.
+      destruct (req_eqbs f Hv) as [(E1 & E2 & E3)|[(E1 & E2 & E3)|(E1 & E2 & E3)]];
+      [ | | apply Z.eqb_eq in E3; contradiction ];
+      destruct (o_rhf o); rewrite ?E1, ?E2, ?E3; simpl; first [apply writeStringValue_seek | reflexivity].
+    Qed.
+
+    (* native: j2t_write_unset_fields decides cache / direct, handleUnmatchedFields serves the cache: together the same rule,
+       with root = (sp == 1 && top) *)
+    Definition native_unset (docroot top : bool) (f : fdesc) : wres :=
+      match write_unset_field o docroot f with
+      | UDirect w => w
+      | UCache => let '(val, enc) := if o_tb o && (top || (f_req f =? R_REQUIRED)) then tryGetValueFromHttp rq (f_name f) else ([], ENC_JSON) in
+                  wsv f (SText_ val) enc
+      end.
+
+    Lemma native_unset_spec : forall docroot top f, valid_req f ->
+      native_unset docroot top f = to_wres (f_id f) (unset_rule o Spec rq conv_text conv_json rec_doc (docroot && top) f).
+    Proof.
+      intros docroot top f Hv. unfold native_unset, write_unset_field, f_trace_back, unset_rule.
+      destruct (o_tb o) eqn:Etb, (o_rhf o) eqn:Erhf, docroot, top, (o_wr o) eqn:Ewr, (o_wd o) eqn:Ewd, (o_wo o) eqn:Ewo;
+      destruct (req_eqbs f Hv) as [(E1 & E2 & E3)|[(E1 & E2 & E3)|(E1 & E2 & E3)]]; unset_case E1 E2 E3 Ewr Ewd Ewo.
+    Qed.
+
+    (* every hand-back leaves fsm.FieldCache empty *)
+    Lemma handleUnmatchedFields_resets_cache : forall top fs cache buf,
+      snd (handleUnmatchedFields o rq conv_text conv_json rec_doc top fs cache buf) = [].
+    Proof. reflexivity. Qed.
+
+    (* the hand-back serves exactly the cached ids, in order, and nothing else *)
+    Lemma unmatched_loop_spec : forall top fs cache buf,
+      unmatched_loop o rq conv_text conv_json rec_doc top fs cache buf =
+      wres_loop (fun f => let '(val, enc) := if o_tb o && (top || (f_req f =? R_REQUIRED)) then tryGetValueFromHttp rq (f_name f) else ([], ENC_JSON) in
+                          wsv f (SText_ val) enc)
+                (flat_map (fun id => match FieldById fs id with Some f => [f] | None => [] end) cache) buf.
+    Proof.
+      intros top fs cache. induction cache as [|id r IH]; intros buf; simpl.
+      - reflexivity.
+      - destruct (FieldById fs id) as [f|]; simpl; [|apply IH].
+        destruct (if o_tb o && (top || (f_req f =? R_REQUIRED)) then tryGetValueFromHttp rq (f_name f) else ([], ENC_JSON)) as [val enc].
+        destruct (wsv f (SText_ val) enc); [apply IH | reflexivity].
+    Qed.
   End Level.
 End Refine.
+
+(* ================================================================================================== *)
+(* response side                                                                                       *)
+(* ================================================================================================== *)
+
+(* what a successful Response does to the response object *)
+Definition deliver (k : Z) (key v : list Z) (r : response) : response :=
+  if k =? K_HEADER then SetHeader r key v
+  else if k =? K_COOKIE then SetCookie r key v
+  else if k =? K_HTTP_CODE then match atoi v with Some i => SetStatusCode r i | None => r end
+  else if k =? K_RAW_BODY then SetRawBody r v
+  else r.
+
+Lemma hm_Response_spec : forall a r text,
+  hm_Response a r text =
+  match resp_ann a text with
+  | RDeliver k key v => Some (deliver k key v r)
+  | RNothing => Some r
+  | RFail => None
+  end.
+Proof.
+  intros a r text. unfold hm_Response, resp_ann, atoi_ok.
+  destruct (a_kind a =? K_HEADER) eqn:E1; [reflexivity|].
+  destruct (a_kind a =? K_COOKIE) eqn:E2; [reflexivity|].
+  destruct (a_kind a =? K_HTTP_CODE) eqn:E3.
+  - destruct (atoi text) eqn:Ea; [|reflexivity]. unfold deliver. simpl. rewrite Ea. reflexivity.
+  - destruct (a_kind a =? K_RAW_BODY) eqn:E4; [reflexivity|].
+    destruct (a_kind a =? K_RAW_URI); reflexivity.
+Qed.
+
+(* the mapping loop of writeHttpValue = resp_loop: first mapping whose Response succeeds wins; a failure is fatal unless
+   OmitHttpMappingErrors *)
+Lemma writeHttpValue_spec : forall o hms r text,
+  writeHttpValue o hms r text =
+  match resp_loop o hms text with
+  | RODelivered k key v => WH true (deliver k key v r)
+  | ROSwallowed => WH true r
+  | ROError => WHErr
+  | ROBody | RODropped => WH false r
+  end.
+Proof.
+  intros o hms r text. induction hms as [|a rest IH]; simpl.
+  - destruct (o_whf o); reflexivity.
+  - rewrite hm_Response_spec. destruct (resp_ann a text); try reflexivity.
+    destruct (o_omit o); [exact IH | reflexivity].
+Qed.
+
+(* a present field: omitted from the JSON body iff the table says so; delivered exactly where the table says *)
+Lemma resp_loop_dropped : forall o hms text, resp_loop o hms text = RODropped -> o_whf o = false.
+Proof.
+  intros o hms text. induction hms as [|x xs IH]; simpl.
+  - destruct (o_whf o); [discriminate | reflexivity].
+  - destruct (resp_ann x text); try discriminate. destruct (o_omit o); [exact IH | discriminate].
+Qed.
+
+Lemma t2j_field_spec : forall o f r text,
+  t2j_field o f r text =
+  match resp_field o f text with
+  | RODelivered k key v => TJ false (deliver k key v r)
+  | ROSwallowed | RODropped => TJ false r
+  | ROBody => TJ true r
+  | ROError => TJErr
+  end.
+Proof.
+  intros o f r text. unfold t2j_field, resp_field. destruct (f_anns f) as [|a rest]; [reflexivity|].
+  cbn [nonempty]. rewrite writeHttpValue_spec.
+  destruct (resp_loop o (a :: rest) text) eqn:El; try reflexivity.
+  - rewrite orb_true_r. reflexivity.
+  - rewrite orb_true_r. reflexivity.
+  - apply resp_loop_body in El. destruct El as [Hw _]. rewrite Hw. reflexivity.
+  - apply resp_loop_dropped in El. rewrite El. reflexivity.
+Qed.
+
+(* an absent owed field (handleUnsets): in the body unless a mapping took it *)
+Lemma handleUnsets_field_spec : forall o f r text,
+  handleUnsets_field o true f r text =
+  match f_anns f with
+  | [] => TJ true r
+  | hms => match resp_loop o hms text with
+           | RODelivered k key v => TJ false (deliver k key v r)
+           | ROSwallowed => TJ false r
+           | ROError => TJErr
+           | ROBody | RODropped => TJ true r
+           end
+  end.
+Proof.
+  intros o f r text. unfold handleUnsets_field. destruct (f_anns f) as [|a rest]; [reflexivity|].
+  rewrite writeHttpValue_spec. destruct (resp_loop o (a :: rest) text); reflexivity.
+Qed.
+
+(* cookie setter semantics: a delivery never removes or replaces a cookie that was set before; a cookie delivery adds exactly its
+   own (name, value) line *)
+Lemma deliver_cookies : forall k key v r,
+  rs_cookies (deliver k key v r) = if k =? K_COOKIE then rs_cookies r ++ [(key, v)] else rs_cookies r.
+Proof.
+  intros k key v r. unfold deliver.
+  destruct (k =? K_HEADER) eqn:E1; [apply Z.eqb_eq in E1; subst; reflexivity|].
+  destruct (k =? K_COOKIE) eqn:E2; [reflexivity|].
+  destruct (k =? K_HTTP_CODE); [destruct (atoi v); reflexivity|].
+  destruct (k =? K_RAW_BODY); reflexivity.
+Qed.
+
+Lemma t2j_field_keeps_cookies : forall o f r text in_body r',
+  t2j_field o f r text = TJ in_body r' -> exists l, rs_cookies r' = rs_cookies r ++ l.
+Proof.
+  intros o f r text ib r' H. rewrite t2j_field_spec in H.
+  destruct (resp_field o f text); inversion H; subst; try (exists []; rewrite app_nil_r; reflexivity).
+  rewrite deliver_cookies. destruct (kind =? K_COOKIE); [eexists; reflexivity | exists []; rewrite app_nil_r; reflexivity].
+Qed.
+
+(* the order of HTTPMappings(): today's mapAnnotations lists api.body last (finding 1714); repaired = the listed order *)
+Lemma map_annotations_repaired : forall anns, map_annotations true anns = anns.
+Proof. reflexivity. Qed.
